@@ -64,7 +64,7 @@ def sweep_base(base, seed, agg, opts):
             continue
         for k in w.miss_log.get(o["id"], []):
             for kind in fault_kinds_for(keys[k], base["knobs"].get("parallel", True)):
-                if kind in ("ERR_MID", "RET_FALSE_MID", "INTERRUPT_MID"):
+                if kind in ("ERR_MID", "RET_FALSE_MID", "INTERRUPT_MID", "NOTFOUND_MID"):
                     for kk in (0, 1, 3):
                         plan.append((o, k, kind, {"k": kk}))
                 elif kind in ("EIO", "ENOSPC", "SHORT_WRITE"):
